@@ -199,6 +199,11 @@ def pick(rng, gen):
         # characters that text-file tooling likes to treat specially at the very start of a file
         text = rng.choice(('\ufeff', '\u200b', '\xa0', '\ufeff\ufeff', '\u2060')) + text
         kind += '+odd-first-char'
+    if rng.random() < 0.05 and text:
+        # characters a supply path might want to "clean": NUL, other C0 controls, DEL, a private-use and an unassigned code point
+        pos = rng.randrange(len(text) + 1)
+        text = text[:pos] + rng.choice(('\x00', '\x00', '\x01', '\x1b', '\x7f', '\x08', '\ue123', '\U000e0001', '\ufffe')) + text[pos:]
+        kind += '+control-char'
     return kind, text
 
 
@@ -226,7 +231,7 @@ def run(ctx):
             if ctx.out_of_time():
                 break
             kind, text = pick(rng, gen)
-            if not workloads.only_lf(text) or '\x00' in text:
+            if not workloads.only_lf(text):
                 ctx.count('skipped_by_filter', 'non-LF line terminator')
                 continue
             check_inproc(ctx, text, rng.choice(RENDERERS), kind, tmpdir)
@@ -241,7 +246,7 @@ def run(ctx):
                 ctx.stopped_by_time = True
                 break
             kind, text = pick(rng, gen) if k % 3 else ('spec', rng.choice(workloads.spec())['markdown'])
-            if not workloads.only_lf(text) or '\x00' in text:
+            if not workloads.only_lf(text):
                 continue
             if rng.random() < 0.3 and text.endswith('\n'):
                 text = text[:-1]
@@ -254,7 +259,7 @@ def run(ctx):
             texts = []
             for _ in range(rng.randint(2, 20 if ctx.tier == 'thorough' else 6)):
                 kind, text = pick(rng, gen)
-                if workloads.only_lf(text) and '\x00' not in text:
+                if workloads.only_lf(text):
                     texts.append(text if rng.random() < 0.8 else text.rstrip('\n'))
             if len(texts) >= 2:
                 check_cli(ctx, texts, rng.choice(RENDERERS), 'multi', tmpdir, repeat=rng.random() < 0.4)
